@@ -16,6 +16,7 @@ def build(u):
     u.raw("pub mod options {\nuse super::*;\n")
     u.item(o, "config_type", "mod")
     u.item(o, "Value", "enum", extra_attr="#[derive(Debug)]   // derive(Debug) of the real enum kept (E1 drops derives); Clone: structural, see specs/optread.rs")
+    u.derived(o, "Value", "Clone", "options")
     u.item(o, "ValueType", "enum")
     u.spec("optread.rs")
     u.trait(o, "OptionType", "options")
